@@ -222,7 +222,7 @@ Proof.
       - split; [apply Hn1old; exact N1v|apply Hn1old; exact N1n]. }
     split; [eapply kok_frame; [apply Ephs|apply Ephs|exact Xk]|exact S2]. }
   assert (Pr2 : pref ih ivs s s2).
-  { apply (pref_one ih ivs s s2 (if kind =? KPrevote then WPV h r coll else WPC h r coll)); [| |exact Xs|exact S2|eapply adv_sadv; [exact Hc|exact (proj1 I2)|apply adv_frame; exact F]].
+  { apply (pref_one ih ivs s s2 (if kind =? KPrevote then WPV h r coll else WPC h r coll)); [| |exact Xs|exact S2|eapply adv_sadv; [exact Hc|exact (proj1 I2)|apply adv_frame; exact F]|destruct (kind =? KPrevote); reflexivity].
     - unfold s2, s1, put_view. destruct (vid =? ViewIDVoting); [|destruct (vid =? ViewIDCommitting)]; reflexivity.
     - unfold s2, s1, stores_of, put_view.
       destruct (vid =? ViewIDVoting); [|destruct (vid =? ViewIDCommitting)]; destruct Hk as [->| ->]; reflexivity. }
